@@ -261,7 +261,7 @@ def model_class(content, new_id, pre):
     return "partial-loadable"
 
 
-def run_config(ctx, drv, recipe, old_recipe, store, mode, pre, idx, call="exact"):
+def run_config(ctx, drv, recipe, old_recipe, store, mode, pre, idx, call="exact", stem="from-idx"):
     """call: how the target is named in the save() call — "exact" (full path), "noext" (zip store,
     path without the .zip extension that save() appends), "auto" (store inferred from the path)"""
     scratch = os.path.join(os.environ.get("QVERIF_SCRATCH", "/tmp"), "c08")
@@ -277,10 +277,14 @@ def run_config(ctx, drv, recipe, old_recipe, store, mode, pre, idx, call="exact"
     NEW = 7
 
     stem_sibling = None
-    if call == "noext" and zip_store and idx % 2 == 0:
+    if call == "noext" and zip_store:
         # `save("obj", store="zip")` writes obj.zip: whatever already lives at the extension-less path `obj`
         # (a directory-store save of the same stem, a plain file) is another path and must stay as it is
-        stem_sibling = "dir" if idx % 4 == 0 else "file"
+        if stem == "from-idx":
+            stem_sibling = ("dir" if idx % 4 == 0 else "file") if idx % 2 == 0 else None
+        else:
+            stem_sibling = stem
+    case0["stem"] = stem_sibling
 
     def one(fault):
         target = setup_sandbox(base, store, pre, old_obj)
@@ -629,11 +633,22 @@ def run(ctx):
             recipe = g.root(rng.weighted([(1, 3), (2, 3)]))
             old_recipe = ["obj", "SB", [["old", ["scalar", sc.S(rng.randint(0, 99))]], ["arr", sc.gen_ndarray(rng)]]]
             for store in ("zip", "dir"):
-                for mode, pre in (("o", "absent"), ("o", "earlier"), ("o", rng.choice(["file", "dir", "emptyfile", "emptydir"])), ("w", "absent"),
-                                  ("w", rng.choice(["file", "dir", "earlier", "emptyfile", "emptydir"]))):
-                    call = rng.weighted([("exact", 3), ("auto", 1), ("noext", 2 if store == "zip" else 0)])
-                    run_config(ctx, drv, recipe, old_recipe, store, mode, pre, idx, call)
+                # call styles and foreign pre-states are enumerated in a fixed rotation (not drawn), so that every
+                # (mode, pre-state, call style) class is reached whatever the seed
+                styles = ["exact", "noext", "auto"] if store == "zip" else ["exact", "auto"]
+                foreign = ["file", "dir", "emptyfile", "emptydir"][i % 4]
+                for ci, (mode, pre) in enumerate((("o", "absent"), ("o", "earlier"), ("o", foreign), ("w", "absent"))):
+                    call = styles[(i + ci) % len(styles)]
+                    run_config(ctx, drv, recipe, old_recipe, store, mode, pre, idx, call,
+                               stem=(["dir", "file", None][(i + ci) % 3] if call == "noext" else None))
                     idx += 1
+                # write-once onto an existing target is refused before any primitive: the whole grid
+                # pre-state x call style is cheap and is run for every graph
+                for pre in ("file", "dir", "earlier", "emptyfile", "emptydir"):
+                    for call in styles:
+                        run_config(ctx, drv, recipe, old_recipe, store, "w", pre, idx, call,
+                                   stem=("dir" if call == "noext" and pre in ("file", "earlier") else None))
+                        idx += 1
                 for _ in range(2):
                     run_natural_failure(ctx, drv, recipe, store, rng.choice(["absent", "earlier"]), idx)
                     idx += 1
@@ -655,7 +670,7 @@ def replay(ctx, rep):
             run_natural_failure(ctx, drv, case["recipe"], case["store"], case["pre"], case.get("idx", case["unpicklable_at"]), case.get("bad_kind"))
         else:
             run_config(ctx, drv, case["recipe"], case.get("old_recipe", ["obj", "SB", []]), case["store"], case["mode"], case["pre"],
-                       case.get("idx", 0), case.get("call", "exact"))
+                       case.get("idx", 0), case.get("call", "exact"), case.get("stem", "from-idx") if "stem" in case else "from-idx")
     finally:
         drv.close()
     return True
